@@ -1122,11 +1122,14 @@ class ImmKinds:
         if immfn in ("LogicalImm", "ImmLogical") or nm == "log_imm":
             if size == 32:
                 vals = [0xFF, 1, 0x55555555, 0x80000000, 0x7FFFFFFF, 0xFFFFFFFE, 0xFF00FF00, 0x0003C000, 0xE0000007,
-                        0, 0xFFFFFFFF, 0x12345, 0x1FFFFFFFF, 5]
+                        0, 0xFFFFFFFF, 0x12345, 0x1FFFFFFFF, 5,
+                        # wrapping run (valid) and two runs the second of which ends one bit below the top (invalid)
+                        0xC0000003, 0x60000001, 0x40000001, 0x41414141]
             else:
                 vals = [0xFF, 1, 0x5555555555555555, 0x8000000000000000, 0x7FFFFFFFFFFFFFFF, 0xFFFFFFFFFFFFFFFE,
                         0xFF00FF00FF00FF00, 0x0003C0000003C000, 0xFFFF0000FFFF0000, 0xE000000000000007, 0x00000000FFFFFFFF,
-                        0, 0xFFFFFFFFFFFFFFFF, 0x12345, 0x100000001, 5]
+                        0, 0xFFFFFFFFFFFFFFFF, 0x12345, 0x100000001, 5,
+                        0xC000000000000003, 0x7F00000000000001, 0x6000000000000001, 0x4141414141414141, 0x4001400140014001]
             if iname == "mov":
                 self.mov_imm(vals + [0x1234, 0xFFFF0000, (1 << size) - 1 - 0x1234, 0x123456789ABC], size)
                 return
